@@ -9,10 +9,13 @@ def I(name):
     return ("ainst", name)
 
 
-RID = {"PHI2": True, "T1": True, "C2": True, "X3": True, "T4": False, "DEF": True, "LABEL": True, "LINE": False, "PHI": True, "OP1": True, "OP2": False, "TERM": False,
+# T5 is an array-like type: it refers to the earlier type T1 and to the earlier constant C2 (its length); C2 refers to its type T1.
+# The storages panic on an id that has not been appended yet (HashMap index), so a use before the lift of its declaration is a panic.
+DEPS = {"C2": [("types", "T1")], "T5": [("types", "T1"), ("constants", "C2")]}
+RID = {"T5": True, "PHI2": True, "T1": True, "C2": True, "X3": True, "T4": False, "DEF": True, "LABEL": True, "LINE": False, "PHI": True, "OP1": True, "OP2": False, "TERM": False,
        "CAP0": False, "CAP1": False, "MM": False}
 RTYPE = {"DEF": True, "PHI": True, "PHI2": True, "OP1": True, "C2": True}
-OPCODE = {"LINE": "Line", "PHI": "Phi", "PHI2": "Phi", "OP1": "IAdd", "OP2": "Store", "TERM": "Return", "T1": "TypeInt", "T4": "TypeForwardPointer", "C2": "ConstantTrue",
+OPCODE = {"LINE": "Line", "PHI": "Phi", "PHI2": "Phi", "OP1": "IAdd", "OP2": "Store", "TERM": "Return", "T1": "TypeInt", "T4": "TypeForwardPointer", "T5": "TypeArray", "C2": "ConstantTrue",
           "X3": "Variable", "DEF": "Function", "LABEL": "Label", "CAP0": "Capability", "CAP1": "Capability", "MM": "MemoryModel"}
 
 
@@ -32,7 +35,7 @@ class H(Hooks):
     def field(self, base, name, e):
         if base == ("amodule",):
             if name == "types_global_values":
-                return ("list", [I("T1"), I("C2"), I("X3"), I("T4")])
+                return ("list", [I("T1"), I("C2"), I("X3"), I("T4"), I("T5")])
             if name == "functions":
                 return ("list", [("afun",)])
             if name == "capabilities":
@@ -95,8 +98,12 @@ class H(Hooks):
                 self.names = {v[1]: k for k, v in recv[2].items() if isinstance(v, tuple) and v[0] == "storage"}
             a = args[0] if args else None
             n = a[1] if isinstance(a, tuple) and a[0] == "ainst" else None
+            if m in ("lift_type", "lift_constant") and n in DEPS and ((m == "lift_type") == n.startswith("T")):
+                for st, dep in DEPS[n]:
+                    if not any(ev_[0] == "append_id" and ev_[1] == st and ev_[2] == ("id", dep) for ev_ in self.events):
+                        raise SPanic("%s(%s) looks up %s of the earlier declaration %s, which has not been lifted yet" % (m, n, st[:-1], dep))
             if m == "lift_type":
-                return ("ok", ("lifted_type", n)) if n in ("T1", "T4") else ("err", ("enum", "InstructionError::WrongOpcode", []))
+                return ("ok", ("lifted_type", n)) if n in ("T1", "T4", "T5") else ("err", ("enum", "InstructionError::WrongOpcode", []))
             if m == "lift_constant":
                 return ("ok", ("lifted_constant", n)) if n == "C2" else ("err", ("enum", "InstructionError::WrongOpcode", []))
             if m == "lift_function":
@@ -150,6 +157,7 @@ def expected():
     events = [
         ("append_id", "types", ("id", "T1"), ("lifted_type", "T1")),
         ("append_id", "constants", ("id", "C2"), ("lifted_constant", "C2")),
+        ("append_id", "types", ("id", "T5"), ("lifted_type", "T5")),
         ("lift_function", "DEF"),
         ("append", "ops", ("id", "OP1"), ("lifted_op", "OP1")),
         ("entry.insert", "ops", ("id", "OP1"), ("struct", "OpInfo", {"op": tok("ops", ("id", "OP1")), "ty": ("some", ("info_of", "types", ("rt", "OP1")))})),
